@@ -30,13 +30,15 @@ Reads never change `cfg` / `dyn` (`wstep_regs`), and what a message does to `cfg
   `relevelOK_anti`): a smaller cache satisfies them if a larger one does;
 * `Legal (.read S)` — every valued dependency of a stored node is stored or already cached: **monotone** in
   the set of cached nodes (`readLegal_mono`).
-A read can only add entries, but "the cache of the history with fewer reads is the smaller one" is **not**
-true step by step: `Micro.rdeps` over-approximates the reverse dependencies (enumerator (4) walks all recorded
-targets of a projector), so a cascade that passes through an entry only the longer history has cached can
-remove an entry both have.  Erasing *all* reads avoids the issue: a read-free history from an empty cache
-never has anything cached (`eraseReads_run`), the antitone conditions hold vacuously and there is no read left
-whose legality could fail.  Erasing only *some* of the reads is not legal in general (a later read may rely
-on what an erased one stored); for two given legal histories `reads_reorder_world` applies. -/
+A read can only add entries, but "the cache of the history with fewer reads stays the smaller one" is **not**
+available step by step: the removal set of a message is computed from the cache the handler finds, and
+`Micro.rdeps` over-approximates the reverse dependencies (enumerator (4) walks all recorded targets of a
+projector; `Lemmas/MicroCascade.lean`), so a cascade that passes through an entry only the longer history has
+cached can remove an entry both have — the contract of the cascade does not exclude it.  Erasing *all* reads
+avoids the issue: a read-free history from an empty cache never has anything cached (`eraseReads_run`), the
+antitone conditions hold vacuously and there is no read left whose legality could fail; so no hypothesis is
+needed.  Erasing only *some* of the reads is not covered (a later read may rely on what an erased one stored: the
+monotone direction); for two given legal histories with the same messages `reads_reorder_world` applies. -/
 namespace Eos.C09World
 open Eos.World Eos.Micro Eos.Micro.L Eos.DepCache Eos.Machine Eos.C01World Eos.C13World
 
